@@ -10,6 +10,10 @@ def plans(tier):
     M = ("-", "A", "B", "SA", "SB", "E", "NA", "NB")
     if tier == "thorough":
         return [
+            dict(fmt="fb", eps=2, depth=5,
+                 letters=letters(("train",), ("ok",),
+                                 ("-", "A", "AX", "I1", "S1", "F")))
+        ] + [
             dict(fmt="fb", eps=e, depth=4,
                  letters=letters(two, ("ok",), M) +
                  letters(("train",), ("shape1",), ("A", "SB")))
@@ -26,6 +30,13 @@ def plans(tier):
         dict(fmt="fb", eps=2, depth=3,
              letters=letters(two, ("ok",), M) +
              letters(("train",), ("shape1",), ("A", "SB"))),
+        # values that differ only in type, extend one another, or are falsy
+        dict(fmt="fb", eps=2, depth=4,
+             letters=letters(("train",), ("ok",),
+                             ("-", "A", "AX", "I1", "S1", "F"))),
+        dict(fmt="npz", eps=1, depth=3,
+             letters=letters(("train",), ("ok",), ("A", "AX", "I1", "S1",
+                                                    "F"))),
         dict(fmt="fb", eps=1, depth=4, letters=letters(("train",), ("ok",), M)),
         dict(fmt="fb", eps=3, depth=5,
              letters=letters(("train",), ("ok",), ("-", "A", "SA", "NB"))),
